@@ -10,8 +10,11 @@ pub mod c09;
 pub mod c10;
 pub mod c11;
 pub mod c12;
+pub mod c13;
+pub mod c14;
 pub mod c15;
 pub mod c16;
+pub mod c18;
 pub mod c19;
 pub mod c20;
 
@@ -32,5 +35,5 @@ macro_rules! m {
 }
 
 pub fn registry() -> Vec<Monitor> {
-    vec![m!("C01", c01), m!("C02", c02), m!("C03", c03), m!("C04", c04), m!("C05", c05), m!("C06", c06), m!("C07", c07), m!("C08", c08), m!("C09", c09), m!("C10", c10), m!("C11", c11), m!("C12", c12), m!("C15", c15), m!("C16", c16), m!("C19", c19), m!("C20", c20)]
+    vec![m!("C01", c01), m!("C02", c02), m!("C03", c03), m!("C04", c04), m!("C05", c05), m!("C06", c06), m!("C07", c07), m!("C08", c08), m!("C09", c09), m!("C10", c10), m!("C11", c11), m!("C12", c12), m!("C13", c13), m!("C14", c14), m!("C15", c15), m!("C16", c16), m!("C18", c18), m!("C19", c19), m!("C20", c20)]
 }
